@@ -104,7 +104,7 @@ func runOsCase(rec *recWriter, dir string, pcbin string, c osCase) {
 	case "fails":
 		cmdText = fmt.Sprintf("echo \"cmd ran $PC_PROC_NAME $(pwd) $(date +%%s%%N)\" >> %s; exit 3", file)
 	case "hangs":
-		cmdText = fmt.Sprintf("echo \"cmd ran $PC_PROC_NAME $(pwd) $(date +%%s%%N)\" >> %s; sleep 30", file)
+		cmdText = fmt.Sprintf("echo \"cmd ran $PC_PROC_NAME $(pwd) $(date +%%s%%N)\" >> %s; sleep 30; true", file) // compound: the shell keeps a child while it hangs
 	}
 	shut.ShutDownCommand = cmdText
 	start := time.Now()
